@@ -657,12 +657,19 @@ def gen_value(d: D, typ: str, c, kind: Optional[str] = None) -> str:
             return d.pick(("m", "yes", "1", ""))
         return d.pick(("y", "n"))
     if kind == "bad":
-        return d.pick(("", "abc", "0xZZ", "1.2.3", "--5", "nan", "inf", " 7", "1e999")) if typ != "string" else "any"
+        return d.pick(("", "abc", "0xZZ", "1.2.3", "--5", "nan", "inf", "1e999")) if typ != "string" else "any"
+    if kind == "lax" and typ != "string":
+        # spellings Python's int()/float() tolerate although they are no well-formed Kconfig numbers (C06)
+        if typ == "int":
+            return d.pick((" 7", "7 ", "1_0", "\t3", "+5"))
+        if typ == "hex":
+            return d.pick((" 7", "0x1_0", "+0x5", "f "))
+        return d.pick((" 1.5", "1_0.5", "+2.5", "1.5 "))
     if typ == "string":
         return gen_literal(d, "string", c)[2]
     if typ == "int":
         if kind == "alt":
-            return d.pick(("007", "+5", "-0", "0010", "1_0"))
+            return d.pick(("007", "-0", "0010", "-007"))
         return gen_literal(d, "int", c)[2]
     if typ == "hex":
         if kind == "alt":
@@ -675,12 +682,12 @@ def gen_value(d: D, typ: str, c, kind: Optional[str] = None) -> str:
     raise ValueError(typ)
 
 
-def gen_assignments(d: D, tree: dict, c, lo: int = 1, hi: int = 8) -> List[Tuple[str, str]]:
+def gen_assignments(d: D, tree: dict, c, lo: int = 1, hi: int = 8, kinds=None) -> List[Tuple[str, str]]:
     names = tree["order"]
     out = []
     for _ in range(d.int(lo, hi)):
         n = d.pick(names)
-        out.append((n, gen_value(d, tree["types"][n], c)))
+        out.append((n, gen_value(d, tree["types"][n], c, d.weighted(kinds) if kinds else None)))
     return out
 
 
